@@ -35,6 +35,7 @@ func runC19(r *an.Run) {
 	c19NameIndex(r)
 	patchBytesUnaltered(r, "R5-positions-are-offsets-into-the-users-file")
 	positionsReadBeforeStrip(r, "R3-line-map")
+	positionsResolvedByTheFileSet(r, "R6-positions-are-resolved-by-the-fileset")
 }
 
 var positionedHelpers = map[string]string{
